@@ -2,8 +2,12 @@
 (* XSLT 1.0 instruction semantics as an executable big-step definition.                          *)
 (*   Transform(ss, F) = the result tree (a normalised sequence of result items) of applying       *)
 (*   stylesheet ss to document 1 of forest F.                                                      *)
-(* Stylesheet:  [templates, gvars, strip?]                                                         *)
-(*   template: [rid, hasMatch, match, name, mode, hasPrio, prio, params, body]                     *)
+(* Stylesheet:  [templates, gvars, keys, strip, mods]                                              *)
+(*   template: [rid, hasMatch, match, name, mode, hasPrio, prio, params, body, mod]                *)
+(*   mods: the import tree as a sequence of [id, imports (ids, in xsl:import order)]; mods[1] is   *)
+(*   the principal module (2.6.2).  Template rules, named templates and xsl:apply-imports (5.6)    *)
+(*   honour import precedence; global variables, keys and space declarations are the principal     *)
+(*   module's.                                                                                      *)
 (*   param / variable / with-param binding: [name, hasSel, sel, body]                              *)
 (* Instructions are records tagged by field i (see Inst).  Result items:                           *)
 (*   [k |-> "elem", name, attrs (function name -> value as a set of <<name, value>>), kids]        *)
@@ -68,11 +72,13 @@ DeepCopy(F, n) ==
        [] kind = "pi" -> <<[k |-> "pi", name |-> LocalOf(F, n), v |-> StringValue(F, n)]>>
        [] OTHER -> <<>>
 
+NoRule == -1          \* the current template rule is null (inside xsl:for-each, in global variables)
+
 (* ---- the interpreter --------------------------------------------------------------------------- *)
 (* context c = XPath context + [ss, entries, gv (global variables)]                                *)
 Bind(vars, name, val) == [x \in (DOMAIN vars) \cup {name} |-> IF x = name THEN val ELSE vars[x]]
 
-RECURSIVE InstSeq(_, _, _), Inst(_, _), BindingValue(_, _), ApplyTo(_, _, _, _), RunTemplate(_, _, _, _, _, _),
+RECURSIVE InstSeq(_, _, _), Inst(_, _), BindingValue(_, _), ApplyTo(_, _, _, _), RunTemplate(_, _, _, _, _, _), Instantiate(_, _, _, _, _, _),
           BindParams(_, _, _, _), WithParams(_, _, _, _), ForEachNode(_, _, _, _), Avt(_, _, _)
 
 (* value of an xsl:variable / xsl:param / xsl:with-param binding in context c *)
@@ -104,28 +110,32 @@ TemplateByRid(ss, rid) == ss.templates[CHOOSE j \in 1..Len(ss.templates) : ss.te
 
 (* instantiate template t for node n at position pos of size, with passed parameters *)
 RunTemplate(t, n, pos, size, passed, c) ==
-  LET c1 == [c EXCEPT !.n = n, !.pos = pos, !.size = size, !.cur = n, !.vars = c.gv]
+  LET c1 == [c EXCEPT !.n = n, !.pos = pos, !.size = size, !.cur = n, !.vars = c.gv, !.rule = t.rid]
       c2 == BindParams(t.params, 1, passed, c1)
   IN InstSeq(t.body, 1, c2)
 
 (* apply templates (mode) to the node at position k of the already ordered sequence nodes *)
+(* instantiate rule rid (or the built-in rule, 5.8) for node n at position k of size *)
+Instantiate(rid, n, k, size, mp, c) ==
+  LET kind == KindOf(c.f, n)
+      cmode == [c EXCEPT !.mode = mp.mode] IN
+  IF rid # Builtin THEN RunTemplate(TemplateByRid(c.ss, rid), n, k, size, mp.passed, cmode)
+  ELSE IF kind \in {"root", "elem"}
+       THEN ApplyTo(DocOrderSeq(Axis(c.f, "child", n)), 1,
+                    [mode |-> mp.mode, passed |-> <<>>], cmode)
+  ELSE IF kind \in {"text", "attr"} THEN TextItem(StringValue(c.f, n))
+  ELSE <<>>
+
 ApplyTo(nodes, k, mp, c) ==      \* mp = [mode, passed]
   IF k > Len(nodes) THEN <<>>
   ELSE LET n == nodes[k]
            cm == [c EXCEPT !.n = n, !.pos = k, !.size = Len(nodes), !.cur = n]
            rid == Winner(c.entries, n, mp.mode, cm)
-           kind == KindOf(c.f, n)
-           here == IF rid # Builtin THEN RunTemplate(TemplateByRid(c.ss, rid), n, k, Len(nodes), mp.passed, c)
-                   ELSE IF kind \in {"root", "elem"}                      \* built-in rules (5.8)
-                        THEN ApplyTo(DocOrderSeq(Axis(c.f, "child", n)), 1,
-                                     [mode |-> mp.mode, passed |-> IF c.dev.builtinPass THEN mp.passed ELSE <<>>], c)
-                   ELSE IF kind \in {"text", "attr"} THEN TextItem(StringValue(c.f, n))
-                   ELSE <<>>
-       IN here \o ApplyTo(nodes, k + 1, mp, c)
+       IN Instantiate(rid, n, k, Len(nodes), mp, c) \o ApplyTo(nodes, k + 1, mp, c)
 
 ForEachNode(nodes, k, body, c) ==
   IF k > Len(nodes) THEN <<>>
-  ELSE InstSeq(body, 1, [c EXCEPT !.n = nodes[k], !.pos = k, !.size = Len(nodes), !.cur = nodes[k]]) \o ForEachNode(nodes, k + 1, body, c)
+  ELSE InstSeq(body, 1, [c EXCEPT !.n = nodes[k], !.pos = k, !.size = Len(nodes), !.cur = nodes[k], !.rule = NoRule]) \o ForEachNode(nodes, k + 1, body, c)
 
 (* the nodes selected by select, in processing order: [bad, seq] *)
 Selected(sel, sorts, c) ==
@@ -188,9 +198,14 @@ Inst(x, c) ==
          LET cands == {j \in 1..Len(c.ss.templates) : c.ss.templates[j].name = x.name}
              passed == WithParams(x.params, 1, c, <<>>) IN
          IF cands = {} THEN BadItem("err")
-         ELSE LET t == c.ss.templates[Max(cands)]
+         ELSE LET top == Max({c.modprec[c.ss.templates[j].mod] : j \in cands})
+                  t == c.ss.templates[Max({j \in cands : c.modprec[c.ss.templates[j].mod] = top})]
                   c2 == BindParams(t.params, 1, passed, [c EXCEPT !.vars = c.gv]) IN
               InstSeq(t.body, 1, c2)
+    [] x.i = "apply-imports" ->      \* 5.6: the current node, in the current mode, among the rules imported into the current rule's module
+         IF c.rule = NoRule THEN BadItem("err")              \* "it is an error if xsl:apply-imports is instantiated when the current template rule is null"
+         ELSE LET rid == ImportsWinner(c.entries, c.cur, c.mode, c.rule, [c EXCEPT !.n = c.cur]) IN
+              Instantiate(rid, c.cur, c.pos, c.size, [mode |-> c.mode, passed |-> <<>>], c)
     [] x.i = "copy" ->
          LET kind == KindOf(c.f, c.n) IN
          CASE kind = "elem" -> MkElem(QNameOf(c.f, c.n), InstSeq(x.body, 1, c))
@@ -214,27 +229,33 @@ Inst(x, c) ==
     [] x.i = "message" -> <<>>
     [] OTHER -> BadItem("err")
 
+(* the import tree of ss as TemplateRules wants it: [id, imports (trees), rules (of that module, in document order)] *)
+RECURSIVE ModuleTree(_, _)
+ModuleTree(ss, id) ==
+  LET m == ss.mods[CHOOSE j \in 1..Len(ss.mods) : ss.mods[j].id = id] IN
+  [id |-> id, imports |-> [j \in 1..Len(m.imports) |-> ModuleTree(ss, m.imports[j])],
+   rules |-> SelectSeq([j \in 1..Len(ss.templates) |->
+                          [rid |-> ss.templates[j].rid, pat |-> ss.templates[j].match, mode |-> ss.templates[j].mode,
+                           hasPrio |-> ss.templates[j].hasPrio, prio |-> ss.templates[j].prio, hasMatch |-> ss.templates[j].hasMatch,
+                           mod |-> ss.templates[j].mod]],
+                       LAMBDA r : r.hasMatch /\ r.mod = id)]
+
 (* global variables, in declaration order, evaluated with the root as context *)
 RECURSIVE Globals(_, _, _)
 Globals(gs, j, c) == IF j > Len(gs) THEN c.vars
                      ELSE Globals(gs, j + 1, [c EXCEPT !.vars = Bind(c.vars, gs[j].name, BindingValue(gs[j], c))])
 
 (* dev names deviations from XSLT 1.0 that a trace spec may want to RECOGNISE (never accept):              *)
-(*   builtinPass  - built-in rules hand the parameters they received on to the children (5.8 says: no)      *)
 (*   zeroAnyEmpty - xsl:number level="any" produces nothing instead of "0" when no node is counted (7.7)    *)
 (* Strict is XSLT 1.0.                                                                                        *)
-Strict == [builtinPass |-> FALSE, zeroAnyEmpty |-> FALSE]
+Strict == [zeroAnyEmpty |-> FALSE]
 TransformWith(ss, F0, dev) ==
   LET \* 3.4: the whitespace-only text nodes selected by the strip-space declarations are not in the source tree
       F == <<RemoveNodes(F0[1], StrippedIds(F0[1], ss.strip))>> \o SubSeq(F0, 2, Len(F0))
       root == <<1, 1, 0>>
-      tree == [id |-> 1, imports |-> <<>>,
-               rules |-> SelectSeq([j \in 1..Len(ss.templates) |->
-                                      [rid |-> ss.templates[j].rid, pat |-> ss.templates[j].match, mode |-> ss.templates[j].mode,
-                                       hasPrio |-> ss.templates[j].hasPrio, prio |-> ss.templates[j].prio, hasMatch |-> ss.templates[j].hasMatch]],
-                                   LAMBDA r : r.hasMatch)]
+      tree == ModuleTree(ss, 1)
       c0 == [f |-> F, n |-> root, pos |-> 1, size |-> 1, vars |-> <<>>, cur |-> root, keys |-> ss.keys,
-             ss |-> ss, entries |-> Entries(tree), gv |-> <<>>, dev |-> dev]
+             ss |-> ss, entries |-> Entries(tree), modprec |-> ModPrecs(tree), gv |-> <<>>, dev |-> dev, mode |-> <<>>, rule |-> NoRule]
       gv == Globals(ss.gvars, 1, c0)
       c1 == [c0 EXCEPT !.gv = gv, !.vars = gv]
       items == Normalize(ApplyTo(<<root>>, 1, [mode |-> "", passed |-> <<>>], c1))
